@@ -51,6 +51,8 @@ func main() {
 		os.Exit(runReplay(os.Args[2:]))
 	case "c18fresh":
 		os.Exit(props.C18FreshMain(os.Args[2:]))
+	case "cold":
+		os.Exit(props.ColdMain(os.Args[2:]))
 	default:
 		fmt.Fprintln(os.Stderr, "unknown mode", os.Args[1])
 		os.Exit(2)
